@@ -5,7 +5,7 @@ from lib import vlib
 MC = """INIT Init
 NEXT Next
 CONSTANTS
-  Images = {"A", "B"}
+  Images = {"A", "B", "C"}
   DevCommitEarly = %s
 INVARIANTS ErrorIsAtomic
 PROPERTIES Atomic TagsSurviveLoads
@@ -14,7 +14,7 @@ CHECK_DEADLOCK FALSE
 TR = """INIT Init2
 NEXT Next2
 CONSTANTS
-  Images = {"A", "B"}
+  Images = {"A", "B", "C"}
   DevCommitEarly = FALSE
 POSTCONDITION Done
 CHECK_DEADLOCK FALSE
